@@ -290,13 +290,14 @@ prop("C07", [
 ],
     rule="one case = (pending writes 1..3 on connection A, A's socket answers would-block at write call i in 0..4, "
          "released after d in 1..4 event-loop steps, a request on connection B of the same worker arriving at step j "
-         "in 0..6 whole or in two reads, kernel event order A-first / B-first): all 3360 combinations on the real "
+         "in 0..6 whole or in two reads, kernel event order A-first / B-first, with / without a third connection that "
+         "goes away in the very batch in which A becomes writable again): all 6720 combinations on the real "
          "transport + Http::Handler stepped single-threaded; oracle: B's response complete within 4 (5) loop steps of "
          "its arrival, never >= 3 consecutive would-block answers without returning to epoll_wait (busy-wait), after "
          "release all of A's bytes arrive in order and A's promises are fulfilled once; second part re-runs the C06 "
          "single-deviation plans for the busy-wait verdict; non-trivial = every combination (all stall A)",
     assumptions=COMMON_ASSUME + ["'bounded time' is measured in event-loop steps, not wall time"],
-    bounds={"quick": "full grid 3x5x4x7x2x2", "thorough": "same grid (complete)"})
+    bounds={"quick": "full grid 3x5x4x7x2x2x2", "thorough": "same grid (complete)"})
 
 prop("C08", [
     {"name": "c08_lifecycle", "sources": ["c08_lifecycle.cc"], "c_sources": ["common/netgate.c"], "flavour": "asan",
